@@ -95,6 +95,26 @@ def run_property(pid, tier, seed, only=None):
     ctxm = mp.get_context('fork')
     with ctxm.Pool(nproc) as pool:
         recs = pool.map(_work, jobs, chunksize=1)
+    # ---- counterexamples found under an over-approximating abstraction (uninterpreted oracle functions) may be
+    # spurious: re-decide those obligations with the abstraction expanded before anything is reported
+    def check_native(rec):
+        line = replay_native(sc, rec['fn'], rec['model_args'], rec['profile'].endswith('on'))
+        rec['native_replay'] = line
+        return violates(rec['kind'], line)
+    redo = []
+    for i, rec in enumerate(recs):
+        if rec['verdict'] == 'counterexample' and any('/uf' in a for a in rec.get('abstractions', [])) and not check_native(rec):
+            ob = jobs[i][0]
+            import copy
+            ob2 = copy.copy(ob); ob2.abstractions = tuple(a for a in ob.abstractions if '/uf' not in a)
+            redo.append((i, (ob2, jobs[i][1], jobs[i][2], jobs[i][3], None, seed, jobs[i][6])))
+    if redo:
+        log('[%s] re-deciding %d obligations without the uninterpreted-oracle abstraction (spurious models)' % (pid, len(redo)))
+        with ctxm.Pool(min(nproc, len(redo))) as pool:
+            recs2 = pool.map(_work, [j for _, j in redo], chunksize=1)
+        for (i, _), r2 in zip(redo, recs2):
+            r2['note'] = 're-decided expanded after a spurious model under ' + ','.join(recs[i].get('abstractions', []))
+            recs[i] = r2
     # ---- verdicts
     violations = []; inconclusive = []; held = 0; kf_lines = []
     for rec in recs:
